@@ -23,6 +23,7 @@ def main():
     ap.add_argument("--tier", default="quick")
     ap.add_argument("--scale", default=None)
     ap.add_argument("--repo", default="/repo")
+    ap.add_argument("--tests", action="store_true", help="also run the pinned repository test-suite on the mutated copy")
     a = ap.parse_args()
     scratch = tempfile.mkdtemp(prefix="audit_", dir="/tmp")
     try:
@@ -35,6 +36,14 @@ def main():
             print("PATCH-FAILED", a.diff, r.stdout, r.stderr)
             return 3
         rc_all = 0
+        if a.tests:
+            t0 = time.time()
+            shutil.copytree(os.path.join(a.repo, "tests"), os.path.join(repo, "tests"), dirs_exist_ok=True)
+            p = subprocess.run([os.path.join(HERE, "tools", "repo_tests.sh"), repo], capture_output=True, text=True)
+            line = [l for l in p.stdout.splitlines() if l.startswith("files:")]
+            print(f"TESTS {'PASS' if p.returncode == 0 else 'FAIL'} {os.path.basename(a.diff)} {time.time()-t0:.0f}s  " + (line[0] if line else p.stdout[-200:]))
+            for d in [x for x in os.listdir('/tmp') if x.startswith('repotests.')]:
+                pass
         for cid in a.ids:
             env = dict(os.environ, VERIF_REPO=repo, VERIF_OUT_DIR=os.path.join(scratch, "out"))
             if a.scale:
